@@ -353,11 +353,20 @@ impl<K: KeyT> SetRunner<K> {
                 let mut out = Held::new(Vec::new());
                 {
                     let mut e = m.extract_if(pred);
+                    let mut ended = false;
                     for _ in 0..n(0) {
                         match e.next() {
                             Some(x) => out.get_mut().push(x),
-                            None => break,
+                            None => {
+                                ended = true;
+                                break;
+                            }
                         }
+                    }
+                    // polled again after its end it stays at the end: no element, no further predicate call
+                    // (a predicate call would show in the callback counters; an element is flagged here)
+                    if ended && (e.next().is_some() || e.next().is_some()) {
+                        crate::exec::own_flag("ORACLE-REF(extract_if_yielded_an_element_after_returning_None)");
                     }
                 }
                 fmt_es(out.get())
